@@ -1421,10 +1421,10 @@ func (e *executor) executeRowsShard(_ context.Context, index string, fieldName s
 	}
 
 	limit := int(^uint(0) >> 1)
-	if lim, hasLimit, err := c.UintArg("limit"); err != nil {
+	lim, hasLimit, err := c.UintArg("limit")
+	if err != nil {
 		return nil, errors.Wrap(err, "getting limit")
 	} else if hasLimit {
-		filters = append(filters, filterWithLimit(lim))
 		limit = int(lim)
 	}
 
@@ -1434,7 +1434,15 @@ func (e *executor) executeRowsShard(_ context.Context, index string, fieldName s
 			continue
 		}
 
-		viewRows := frag.rows(start, filters...)
+		// The limit filter counts the rows it lets through, so every view
+		// needs its own: each view contributes its first `limit` rows and
+		// the merge keeps the smallest `limit` of them.
+		viewFilters := filters
+		if hasLimit {
+			viewFilters = append(filters[:len(filters):len(filters)], filterWithLimit(lim))
+		}
+
+		viewRows := frag.rows(start, viewFilters...)
 		rowIDs = rowIDs.merge(viewRows, limit)
 	}
 
